@@ -24,8 +24,14 @@ class Infra(Exception):
     """Infrastructure failure: the check exits 2, never reports a violation."""
 
 
+_T0 = time.time()
+
+
 def log(*a):
-    print(*a, flush=True)
+    if os.environ.get("VERIF_TIMES"):
+        print("[%6.1fs]" % (time.time() - _T0), *a, flush=True)
+    else:
+        print(*a, flush=True)
 
 
 def run(cmd, cwd=None, env=None, timeout=None, check=True):
